@@ -112,8 +112,9 @@ def new_message(env, mod, i):
     return getattr(mod, env.name(i))()
 
 
-def fill(env, obj, t, value):
-    """Populate composite `obj` of type t from the value tree."""
+def fill(env, obj, t, value, skip=()):
+    """Populate composite `obj` of type t from the value tree (members whose
+    1-based index is in `skip` are not touched at all)."""
     b = env.base(t)
     d = env.d(b["i"])
     if d["k"] == "union":
@@ -129,6 +130,8 @@ def fill(env, obj, t, value):
             fill(env, getattr(obj, name), arm["t"], x)
         return
     for j, (m, y) in enumerate(zip(d["ms"], value[1]), 1):
+        if j in skip:
+            continue
         name = env.mname(b["i"], j)
         f, t2 = m["f"], m["t"]
         if f == "plain":
